@@ -46,11 +46,15 @@ type c18HOp struct {
 }
 
 type c18HCase struct {
-	Cap     int
-	NKeys   int
-	Procs   int
-	Prefill []c18HOp
-	G       [][]c18HOp
+	Cap   int
+	NKeys int
+	Procs int
+	// Lockstep: the goroutines rendezvous before every call, so that their i-th
+	// calls hit the cache at (nearly) the same instant (maximises real overlap
+	// inside the critical sections); otherwise they only start together.
+	Lockstep bool
+	Prefill  []c18HOp
+	G        [][]c18HOp
 }
 
 func c18GenHOp(t *rapid.T, nkeys int, putBias int) c18HOp {
@@ -74,6 +78,7 @@ func c18GenHistory(t *rapid.T) c18HCase {
 	c.Cap = rapid.IntRange(1, 3).Draw(t, "cap")
 	c.NKeys = rapid.IntRange(c.Cap+1, 6).Draw(t, "nkeys")
 	c.Procs = rapid.SampledFrom([]int{1, 2, 4, 4, 16, 16}).Draw(t, "procs")
+	c.Lockstep = rapid.IntRange(0, 2).Draw(t, "lockstep") == 0
 	putBias := rapid.IntRange(3, 7).Draw(t, "putbias")
 	npre := rapid.IntRange(0, c.Cap+1).Draw(t, "npre")
 	for i := 0; i < npre; i++ {
@@ -151,7 +156,7 @@ func c18CheckHistory(c c18HCase) h.Result {
 	}
 	reps = C18Reps(reps, 20*reps)
 	rep, viol := C18Spawn("history", "TestC18ChildHistory", c, c.Procs, reps)
-	r.Class(fmt.Sprintf("cap:%d", c.Cap), fmt.Sprintf("procs:%d", c.Procs), fmt.Sprintf("goroutines:%d", len(c.G)))
+	r.Class(fmt.Sprintf("cap:%d", c.Cap), fmt.Sprintf("procs:%d", c.Procs), fmt.Sprintf("goroutines:%d", len(c.G)), fmt.Sprintf("lockstep:%v", c.Lockstep))
 	if viol != nil {
 		r.NT(true)
 		r.Fail(viol.Sig, "%s", viol.Detail)
@@ -284,6 +289,14 @@ func c18HRun(c c18HCase, env *c18HEnv, rep int) (hist []c18Rec, viol *C18Viol) {
 	per := make([][]c18Rec, len(progs))
 	panics := make([]string, len(progs))
 	bar := C18NewBarrier(len(progs))
+	var rounds []*C18StartBarrier
+	if c.Lockstep {
+		lens := make([]int, len(progs))
+		for g := range progs {
+			lens[g] = len(progs[g])
+		}
+		rounds = C18RoundBarriers(lens)
+	}
 	var wg sync.WaitGroup
 	for g := range progs {
 		wg.Add(1)
@@ -292,11 +305,17 @@ func c18HRun(c c18HCase, env *c18HEnv, rep int) (hist []c18Rec, viol *C18Viol) {
 			defer func() {
 				if r := recover(); r != nil {
 					panics[g] = fmt.Sprint(r)
+					if len(rounds) > 0 {
+						rounds[0].Abort()
+					}
 				}
 			}()
 			recs := make([]c18Rec, 0, len(progs[g]))
 			bar.Wait()
-			for _, p := range progs[g] {
+			for i, p := range progs[g] {
+				if rounds != nil {
+					rounds[i].Wait()
+				}
 				C18Perturb(p.op.Y, p.op.Spin, rep)
 				recs = append(recs, exec(g, p))
 				per[g] = recs
